@@ -108,6 +108,8 @@ def twice(make):
 
 
 def splitf(kind, d):
+    if kind == 'nonemod':       # a criterion that is None for some items (a missing field)
+        return lambda x: None if x % d == 0 else x % d
     return k_div(d) if kind == 'div' else f_mod(d)
 
 
@@ -116,11 +118,11 @@ T0 = datetime.datetime(2021, 3, 4, 5, 6, 7)
 
 def to_dt(i):
     """int seconds -> datetime (time_split is documented on datetime / timedelta)"""
-    return T0 + datetime.timedelta(seconds=i)
+    return T0 + datetime.timedelta(milliseconds=200 * i)       # sub-second parts: exact microsecond arithmetic matters
 
 
 def to_td(n):
-    return None if n is None else datetime.timedelta(seconds=n)
+    return None if n is None else datetime.timedelta(milliseconds=200 * n)
 
 
 def closingf(c):
